@@ -8,7 +8,7 @@
    (http.DetectContentType); [c], [s] are ANY client configuration / request state. *)
 From ReqV Require Import Lib.Bytes Model.Retry Model.RetryUpload
   Proofs.RetryProofs Proofs.RetryLoopProofs Proofs.RetryRunProofs Proofs.RetryOptProofs
-  Proofs.RetryUploadProofs Model.RetrySlices Gen.RetryClone Proofs.RetrySlicesProofs Proofs.RetryCloneTie.
+  Proofs.RetryUploadProofs Model.RetrySlices Gen.RetryClone Proofs.RetrySlicesProofs Proofs.RetryCloneTie Model.RetryJar Proofs.RetryJarProofs.
 
 (* ---------- bounded ---------- *)
 
@@ -397,6 +397,33 @@ Theorem C10_shallow_clone_refuted :
   views (wrun go_grow CloneDeep shallow_witness world0) = [[1; 2; 3]; [1; 2; 3; 10]; [1; 2; 3; 20]]%Z.
 Proof. exact shallow_clone_refuted. Qed.
 Print Assumptions C10_shallow_clone_refuted.
+
+(* ---------- the client's cookie jar: state carried from attempt to attempt ---------- *)
+
+(* every attempt carries the caller's cookies first, unchanged, whatever the responses set ... *)
+Theorem C10_caller_cookies_on_every_attempt : forall caller resps j cs,
+  In cs (attempt_cookies caller j resps) -> firstn (length caller) cs = caller.
+Proof. exact caller_cookies_on_every_attempt. Qed.
+Print Assumptions C10_caller_cookies_on_every_attempt.
+
+(* ... followed by exactly the jar as the responses of the earlier attempts left it *)
+Theorem C10_attempt_cookies_nth : forall caller resps j k,
+  k < length resps ->
+  nth k (attempt_cookies caller j resps) [] = caller ++ jar_after j (firstn k resps).
+Proof. exact attempt_cookies_nth. Qed.
+Print Assumptions C10_attempt_cookies_nth.
+
+Theorem C10_no_set_cookie_all_equal : forall caller resps j,
+  Forall (fun r => r = []) resps ->
+  attempt_cookies caller j resps = repeat (caller ++ j) (length resps).
+Proof. exact no_set_cookie_all_equal. Qed.
+Print Assumptions C10_no_set_cookie_all_equal.
+
+(* a cookie is never held twice by the jar (so it cannot double from attempt to attempt) *)
+Theorem C10_jar_names_stay_distinct : forall j c,
+  NoDup (map fst j) -> NoDup (map fst (jar_set1 j c)).
+Proof. exact jar_names_stay_distinct. Qed.
+Print Assumptions C10_jar_names_stay_distinct.
 
 (* ---------- non-vacuity ---------- *)
 
